@@ -12,12 +12,14 @@ from typing import Any, Dict
 from harness.extract import action_templates as x_templ
 from harness.extract import request_core as x_core
 from harness.extract import request_schema as x_schema
+from harness.extract import request_sites as x_sites
 from harness.extract import request_validators as x_valid
 from harness.lib import scen
 from harness.lib.core import VERIF, Ctx, lean_lock
 from harness.rigs import request_schema as rig
 
-MODULES = ["PrimaiteModel.Props.C05Schema", "PrimaiteModel.Props.C05Guards", "PrimaiteModel.Props.C05Inst"]
+MODULES = ["PrimaiteModel.Props.C05Schema", "PrimaiteModel.Props.C05Guards", "PrimaiteModel.Props.C05Inst",
+           "PrimaiteModel.Props.C05Sites"]
 EXE = "drv_c05x"
 QUICK_SCEN = ["data_manipulation", "basic_firewall", "basic_switched_network", "multi_lan_internet_network_example"]
 SKIP = {"bad_primaite_session", "no_nodes_links_agents_network"}
@@ -68,6 +70,7 @@ def extra(ctx: Ctx):
         ctx.extract("RequestCore", x_core.emit)          # Props/C05Schema imports Props/C05, which imports Gen/RequestCore
         ok1 = ctx.extract(x_schema.GEN_NAME, x_schema.emit)
         ok2 = ctx.extract(x_templ.GEN_NAME, x_templ.emit)
+        ctx.extract(x_sites.GEN_NAME, x_sites.emit)       # E4b: guards of every dynamic add/remove site (Props/C05Sites)
         ctx.extract(x_valid.GEN_NAME, x_valid.emit)       # E6: every validator __call__ translated (Props/C05Guards)
         proved = ctx.prove(MODULES, exes=[EXE], leanchecker=ctx.thorough)
     ctx.cov["rule_schema"] = ("R-schema: every manager of the live request tree of shipped scenarios (initial and perturbed states) compared "
